@@ -1,4 +1,4 @@
-(* Proofs/CatalogueLoader.v — the reopen with the loader's filter on the reserved group name (Model/CatalogueLoader.v):
+(* Proofs/CatalogueLoaderOk.v — the reopen with the loader's filter on the reserved group name (Model/CatalogueLoader.v):
    exactly one name is hidden, every other name is found again with the live type and data. *)
 From Coq Require Import ZArith List Bool Lia.
 From EV Require Import Res Catalogue CatalogueSpec CatalogueBase CatalogueInv CatalogueRename CatalogueStep CatalogueObs CatalogueWitness CatalogueLoader.
